@@ -53,6 +53,54 @@ def correlated_edge_ok(e, func, src):
     return edge_ok
 
 
+def feasible_paths(e, func, dst_pred, limit=4000):
+    """Acyclic entry->dst paths of func that are consistent w.r.t. tests on
+    never-reassigned names (bare truth tests and None tests): a path that takes
+    `x` true at one test and false at another is infeasible and dropped.
+    Yields lists of (node, label)."""
+    g = e.cfg(func)
+    stored = {n.id for n in func_nodes(func) if isinstance(n, ast.Name) and isinstance(n.ctx, (ast.Store, ast.Del))}
+    counts = {}
+    for n in func_nodes(func):
+        if isinstance(n, ast.Name) and isinstance(n.ctx, ast.Store):
+            counts[n.id] = counts.get(n.id, 0) + 1
+    stable = {p for p in func.all_params() if p not in stored} | {n for n, c in counts.items() if c == 1}
+
+    def fact(node, label):
+        if node.kind != "test" or label not in ("T", "F"):
+            return None
+        x = node.ast
+        if isinstance(x, ast.Name) and x.id in stable:
+            return ("truth", x.id, label == "T")
+        nt = none_test(x)
+        if nt and isinstance(nt[0], ast.Name) and nt[0].id in stable and not isinstance(x, ast.Name):
+            return ("notnone", nt[0].id, label == nt[1])
+        return None
+    out = []
+    stack = [(g.entry, [], {}, {g.entry})]
+    while stack:
+        n, path, facts, seen = stack.pop()
+        if dst_pred(n):
+            out.append(path + [(n, None)])
+            if len(out) > limit:
+                raise AnalysisError("too many paths")
+            continue
+        for m, l in n.succ:
+            if m in seen or l == "exc":
+                continue
+            f_ = fact(n, l)
+            nf = facts
+            if f_ is not None:
+                k = f_[:2]
+                if k in facts and facts[k] != f_[2]:
+                    continue  # contradicts an earlier branch on the same stable name
+                # a name known to be None is also falsy, known truthy is not None
+                nf = dict(facts)
+                nf[k] = f_[2]
+            stack.append((m, path + [(n, l)], nf, seen | {m}))
+    return out
+
+
 def node_calls(e, func, n, pred):
     """Calls evaluated by CFG node n satisfying pred(func, call)."""
     return [c for c in calls_in(n) if pred(func, c)]
